@@ -383,3 +383,54 @@ func sortedKeys(m map[string]int) []string {
 	sort.Strings(ks)
 	return ks
 }
+
+// ---------------------------------------------------------------- deterministic class: a value together with an error
+//
+// Store callbacks that FAIL and hand back a non-nil value next to their error (script entries 4: injected error, 5:
+// the error that reads as not-found; ORM style `return &row, err`).  A failed callback is a failed callback: nothing
+// of what it handed back may reach the cache or the caller.  No randomness: the members are a fixed list (two
+// histories x facades x worker counts x key types), emitted after every other class.
+func valueWithErrorSpecs() []*seqSpec {
+	type cfg struct {
+		wrapped bool
+		n, cap  int
+		kind    int
+	}
+	cfgs := []cfg{
+		{true, 1, -1, kInt64}, {true, 3, -1, kString}, {true, 2, 1, kInt}, {true, 1, 2, kUInt64CRC}, {true, 5, 100, kInt32},
+		{false, 1, -1, kInt64}, {false, 3, -1, kUInt32CRC}, {false, 2, 2, kInt64CRC}, {false, 1, 100, kString},
+	}
+	out := []*seqSpec{}
+	for _, c := range cfgs {
+		for variant := 0; variant < 2; variant++ {
+			k1, k2 := int64(3), int64(8)
+			g := grpSpec{Wrapped: c.wrapped, N: c.n, Cap: c.cap, Kind: c.kind, Univ: []int64{k1, k2}, InitL: [][2]int64{{k1, 6}}}
+			st := func(op int, k, d int64, f ...int) opSpec { return opSpec{Op: op, K: k, D: d, Faults: f} }
+			probe := func(k int64) opSpec { return opSpec{Op: opGet, K: k, Faults: []int{1}} } // a miss changes nothing
+			var steps []opSpec
+			if variant == 0 {
+				// the load of a Get fails with a value: row present (k1) and row absent (k2)
+				steps = []opSpec{
+					st(opGet, k1, 0, 4), probe(k1), st(opAdd, k1, 7), probe(k1), st(opGet, k1, 0, 5), probe(k1),
+					st(opGet, k2, 0, 5), probe(k2), st(opGet, k2, 0, 4), probe(k2), st(opAdd, k2, 9), st(opGet, k2, 0, 4),
+					st(opGet, k1, 0), st(opGet, k1, 0, 4), st(opDelete, k1, 0), st(opGet, k1, 0, 4), probe(k1), st(opGet, k1, 0, 5), probe(k1),
+				}
+			} else {
+				// every other callback position: load / update / add / upsert / reload / delete, miss and hit paths
+				steps = []opSpec{
+					st(opUpdate, k1, 11, 4), probe(k1), st(opUpdate, k1, 12, 5), probe(k1), st(opUpdate, k1, 13, 0, 4), probe(k1),
+					st(opUpdOrAdd, k2, 14, 5, 4), probe(k2), st(opUpdOrAdd, k2, 15, 4), probe(k2), st(opUpdOrAdd, k2, 16, 5, 5), probe(k2),
+					st(opAdd, k2, 17, 4), probe(k2), st(opAdd, k2, 18, 5), probe(k2),
+					st(opUpsertLoad, k1, 19, 4), probe(k1), st(opUpsertLoad, k1, 20, 0, 4), probe(k1), st(opUpsertLoad, k1, 21, 0, 5), probe(k1),
+					st(opUpsertRenew, k1, 22, 4), probe(k1), st(opUpsertRenew, k2, 23, 5), probe(k2),
+					st(opGet, k1, 0), // k1 cached from here: the hit paths
+					st(opUpdate, k1, 24, 4), probe(k1), st(opUpdOrAdd, k1, 25, 5), probe(k1), st(opUpsertLoad, k1, 26, 4), probe(k1),
+					st(opUpsertRenew, k1, 27, 5), probe(k1), st(opDelete, k1, 0, 4), probe(k1), st(opDelete, k1, 0, 5), probe(k1),
+					st(opUpdate, k1, 28), st(opDelete, k1, 0), st(opGet, k1, 0, 4), probe(k1), st(opUpdOrAdd, k1, 29, 5, 0), probe(k1),
+				}
+			}
+			out = append(out, &seqSpec{G: g, Steps: steps})
+		}
+	}
+	return out
+}
